@@ -74,11 +74,30 @@ class Bus:
         return self.d.stop()
 
 
-def poll_all(conn):
-    """read whatever is already in the socket buffer; never waits"""
+def send_all(conn, data, fds):
+    """one sendmsg with the descriptors; whatever the socket did not take at once follows without ancillary data
+    (the kernel attaches SCM_RIGHTS to the first byte of a sendmsg anyway)"""
+    import array
+    if not fds:
+        conn.sock.sendall(data)
+        return
+    n = conn.sock.sendmsg([data], [(socket.SOL_SOCKET, socket.SCM_RIGHTS, array.array("i", fds))])
+    if n < len(data):
+        conn.sock.sendall(data[n:])
+
+
+def poll_all(conn, waited=None):
+    """read whatever is already in the socket buffer.  Waits only while a message is half-received: the bus could not
+    write it in one piece (longer than the socket buffer) and continues as we read."""
+    t_end = time.time() + 20
     while not conn.closed:
         r, _, _ = select.select([conn.sock], [], [], 0)
         if not r:
+            if conn.buf and time.time() < t_end:
+                if waited is not None:
+                    waited.append(1)
+                conn._pump(2.0)
+                continue
             break
         conn._pump(0)
     out, conn.inbox = conn.inbox, []
@@ -100,9 +119,10 @@ def run_history(bus, events):
 
     def observe(skip=None):
         outs, gone = [], []
+        waited = []
         for cid in sorted(conns):
             c = conns[cid]
-            for m in poll_all(c):
+            for m in poll_all(c, waited):
                 snd = m.fields.get(F_SENDER)
                 rs = m.fields.get(F_REPLY_SERIAL)
                 if snd == BUS and m.mtype == SIGNAL:
@@ -134,9 +154,11 @@ def run_history(bus, events):
                 else:
                     outs.append("%d:M.%s.%d.%s" % (cid, uniq.get(snd, "?"), m.serial, ",".join(ids) if ids else "-"))
                 if len(m.fds) != m.fields.get(rawbus.F_UNIX_FDS, 0):
-                    notes["id_bad"].append("message %d arrived with %d descriptors, header says %s" % (m.serial, len(m.fds), m.fields.get(rawbus.F_UNIX_FDS, 0)))
+                    notes["id_bad"].append((len(toks), "message %d arrived with %d descriptors, header says %s" % (m.serial, len(m.fds), m.fields.get(rawbus.F_UNIX_FDS, 0))))
             if c.fdq:
-                notes["id_bad"].append("connection %d received %d descriptors that belong to no message" % (cid, len(c.fdq)))
+                notes["id_bad"].append((len(toks), "connection %d received %d descriptor(s) beyond what the messages it received announce "
+                                                   "(descriptors must accompany a message exactly once, however the bus splits its writes)" % (cid, len(c.fdq))))
+                outs.append("%d:X.extra-descriptors.%d" % (cid, len(c.fdq)))
                 for f in c.fdq:
                     os.close(f)
                 c.fdq = []
@@ -146,6 +168,17 @@ def run_history(bus, events):
             conns[cid].close()
             del conns[cid]
             tx.pop(cid, None)
+        if waited:
+            # a long message was only now taken off the bus's hands: let it finalise the message before counting
+            notes["partial_writes"] = notes.get("partial_writes", 0) + 1
+            bus.sync()
+            for cid in sorted(conns):
+                late = poll_all(conns[cid])
+                if any(not (x.fields.get(F_SENDER) == BUS and x.mtype == SIGNAL) and not (x.fields.get(F_REPLY_SERIAL) or 0) >= HIGH for x in late):
+                    notes["id_bad"].append((len(toks), "connection %d received a message after the step was over" % cid))
+                for x in late:
+                    for f in x.fds:
+                        os.close(f)
         held = bus.d.nfds() - bus.base - len(conns)
         return "%s/%s/%d" % ("+".join(outs) if outs else "-", ",".join(str(g) for g in gone) if gone else "-", held)
 
@@ -199,7 +232,7 @@ def run_history(bus, events):
                 try:
                     if cid in conns:
                         try:
-                            conns[cid].send_raw(data, real)
+                            send_all(conns[cid], data, real)
                         except OSError:
                             pass
                 finally:
